@@ -31,7 +31,7 @@ try:
             vc, wt, os.environ.get("VERIF_SEED", "0"), p, ("--tier " + os.environ["TIER"]) if os.environ.get("TIER") else ""))
         lines = [l for l in c.stdout.split("\n") if l.startswith(("VIOLATION", "OK ", "failing input", "no longer checks", "INFRA"))]
         viol = [l for l in lines if l.startswith("VIOLATION")]
-        result = "MISSED" if c.returncode == 0 else ("infra" if c.returncode == 2 else (
+        result = "MISSED" if c.returncode == 0 else ("infra" if c.returncode == 2 else "timeout" if c.returncode == 124 else (
             "caught-nofail" if viol and "no-failing-input-found" in viol[0] else "caught"))
         runs.append({"check": p, "result": result, "exit": c.returncode, "wall_s": round(time.time() - t0, 1),
                      "verif_commit": head + ("+dirty" if dirty else ""), "seed": int(os.environ.get("VERIF_SEED", "0")),
